@@ -184,7 +184,8 @@ def step (s : DState) (line : String) : DState × String :=
     match p.toNat? with
     | some p => ({ s with lvl := Level.new p, g := 0, c04F1 := false, c04F2 := false, lastMakers := "", fork := none }, "new")
     | none => bad s line
-  | ["newgen", c] =>
+  | "newgen" :: c :: _ =>
+    -- the namespace (optional third token) does not enter the model: ids are compared as counters
     match c.toNat? with
     | some c => ({ s with g := c }, "newgen")
     | none => bad s line
